@@ -437,6 +437,15 @@ class ColorValue(Value):
                             raw.append(int(255 * item.value.value / 100))
                         check += 'P'
 
+                if not 3 <= len(raw) <= 4:
+                    # e.g. input ended inside the function
+                    self.wellformed = False
+                    self._log.error(
+                        'ColorValue has invalid number of %s) parameters: '
+                        '%s (N=Number, P=Percentage)' % (functiontype, check)
+                    )
+                    return
+
                 if HSL:
                     # convert to rgb
                     # h is 360 based (circle)
@@ -893,6 +902,11 @@ class CSSVariable(CSSFunction):
         store = {'ident': None, 'fallback': None}
         ok, seq, store, unused = ProdParser().parse(cssText, 'CSSVariable', prods)
         self.wellformed = ok
+
+        if ok and 'ident' not in store:
+            # e.g. input ended inside the function
+            ok = self.wellformed = False
+            self._log.error('CSSVariable: No variable name found.')
 
         if ok:
             self._name = store['ident'].value
